@@ -364,6 +364,17 @@ void xop(string *a) {
       if (q) destruct(q);
     }
     break;
+  case "xaco":    // xaco <id> <fn> <ob> <ob> ...: the array form of call_other
+    {
+      mixed r; object *obs; string res; int k;
+      obs = ({ }); e = 0;
+      for (k = 3; k < sizeof(a); k++) { o = find_object(a[k]); if (!o) catch(o = load_object(a[k])); if (o) obs += ({ o }); }
+      e = catch(r = call_other(obs, a[2]));
+      res = "";
+      if (arrayp(r)) for (k = 0; k < sizeof(r); k++) res += (k ? "," : "") + (stringp(r[k]) ? r[k] : (intp(r[k]) ? "int:" + r[k] : "other"));
+      rec("XR " + a[1] + " " + (e ? "err:" + replace_string(replace_string(e, "\n", ""), " ", "_") : "arr:" + res));
+    }
+    break;
   case "xreload": // xreload <ob>: destruct the blueprint, the next call loads it again (new program)
     o = find_object(a[1]);
     if (o) destruct(o);
@@ -584,6 +595,12 @@ void do_op(string op) {
     rec("LOADED " + (o ? 1 : 0));
     if (o) destruct(o);
     break;
+  case "ec":      // enable_commands only
+    enable_commands();
+    break;
+  case "addx":    // add_action of this object's "x" to whoever is this_player() (used from init hooks)
+    add_action("cmd_x", "x");
+    break;
   case "living":  // make this object a living one with the action "x"
     enable_commands();
     add_action("cmd_x", "x");
@@ -668,7 +685,7 @@ void do_op(string op) {
   case "mk": case "put": case "cyc": case "uncyc": case "share": case "cov": case "covf": case "itv": case "drop": case "clearall": case "rb": case "many": case "use": case "memstat": case "rcall": case "dslot": case "dkids": case "pinfo": case "pdump":
     cop(a);
     break;
-  case "xco": case "xreload": case "comp":
+  case "xco": case "xaco": case "xreload": case "comp":
     xop(a);
     break;
   case "uclone": case "uload": case "useteuid": case "uexport": case "uids": case "ucall": case "ucf": case "uvs": case "umclone":
